@@ -29,6 +29,7 @@ import (
 
 	"github.com/33cn/chain33/common/merkle"
 	"github.com/33cn/chain33/types"
+	"github.com/33cn/chain33/util"
 
 	"verifharness/internal/gen"
 )
@@ -209,7 +210,15 @@ func depth(n int) int {
 
 func opRoot(l *leafList) []byte {
 	var r []byte
-	res := gen.Guard(func() string { r = merkle.GetMerkleRoot(copyLeaves(l.leaves)); return hx(r) })
+	arg := copyLeaves(l.leaves)
+	res := gen.Guard(func() string { r = merkle.GetMerkleRoot(arg); return hx(r) })
+	// getMerkleRoot works in place: the caller's slice no longer holds the leaves afterwards
+	for i := range arg {
+		if !bytes.Equal(arg[i], l.leaves[i]) {
+			out.Stat("argument_slice_overwritten_by_GetMerkleRoot", 1)
+			break
+		}
+	}
 	out.Op(fmt.Sprintf("root %d %s", ncpu, l.spec()), res)
 	if res == "panic" {
 		out.Pred("C18|GetMerkleRoot|panic", l.spec())
@@ -800,6 +809,90 @@ func sectionMulti(r *gen.Rand) {
 	}
 }
 
+// sectionDupCheck: util.DelDupTx (the in-block part of the duplicate-transaction check of PreExecBlock)
+// on lists of real transactions with repeats; a list is rejected (ErrTxDup for a peer block) iff it shrinks.
+// Predicate: every duplicated-tail list — the lists that share their root with a shorter list — is rejected.
+func sectionDupCheck(r *gen.Rand) {
+	for i := 0; i < gen.Scale(60, 600); i++ {
+		m := 1 + r.Intn(12)
+		pool := make([]*types.Transaction, m)
+		for j := range pool {
+			pool[j] = mkTx(r, mainExecs[r.Intn(len(mainExecs))])
+		}
+		n := 1 + r.Intn(30)
+		var txs []*types.Transaction
+		switch i % 3 {
+		case 0: // no repeats
+			if n > m {
+				n = m
+			}
+			for _, j := range r.Perm(m)[:n] {
+				txs = append(txs, pool[j])
+			}
+		case 1: // random repeats
+			for j := 0; j < n; j++ {
+				txs = append(txs, pool[r.Intn(m)])
+			}
+		default: // duplicated tail of a duplicate-free list
+			txs = append(txs, pool...)
+			k := m & -m
+			if r.Bool() {
+				k = 1 + r.Intn(m)
+			}
+			txs = append(txs, pool[m-k:]...)
+		}
+		var hs [][]byte
+		var caches []*types.TransactionCache
+		seen := map[string]bool{}
+		hasDup := false
+		for _, tx := range txs {
+			h := tx.Hash()
+			hs = append(hs, h)
+			if seen[string(h)] {
+				hasDup = true
+			}
+			seen[string(h)] = true
+			caches = append(caches, types.NewTransactionCache(tx))
+		}
+		var kept [][]byte
+		res := gen.Guard(func() string {
+			for _, c := range util.DelDupTx(caches) {
+				kept = append(kept, c.Hash())
+			}
+			rej := 0
+			if len(kept) != len(txs) {
+				rej = 1
+			}
+			return fmt.Sprintf("%s %d", hxList(kept), rej)
+		})
+		out.Op("deldup "+hxList(hs), res)
+		out.Stat("dupcheck_lists", 1)
+		rejected := len(kept) != len(txs)
+		if rejected {
+			out.Stat("dupcheck_rejected", 1)
+		}
+		if hasDup != rejected {
+			out.Pred("C18|DelDupTx|list-with-repeated-tx-not-shortened", fmt.Sprintf("n=%d kept=%d", len(txs), len(kept)))
+		}
+		// a list with the same (single-layer) root as a strictly shorter prefix must be rejected
+		if i%3 == 2 {
+			full := func(ts []*types.Transaction) [][]byte {
+				var o [][]byte
+				for _, t := range ts {
+					o = append(o, t.FullHash())
+				}
+				return o
+			}
+			if bytes.Equal(refRoot(full(txs)), refRoot(full(pool))) {
+				out.Stat("dupcheck_same_root_as_prefix", 1)
+				if !rejected {
+					out.Pred("C18|PreExecBlock|duplicated-tail-list-passes-dup-check", fmt.Sprintf("m=%d n=%d", m, len(txs)))
+				}
+			}
+		}
+	}
+}
+
 func replay(lines []string) {
 	for _, line := range lines {
 		f := strings.Fields(line)
@@ -888,6 +981,7 @@ func main() {
 		r := gen.New(seed*7919 + 3)
 		sectionBranches(r, seed)
 		sectionDupTail(r, seed)
+		sectionDupCheck(gen.New(seed*7919 + 4))
 	}
 	l := (&leafList{}).gen(seed, 0, 6)
 	c, _ := computation(l.clone().dupTail(2), 1, 0)
